@@ -7,13 +7,36 @@ from ..report import Report
 PROP = "C07"
 
 
+STRESS = ["and qword [ebx+ecx*4+0x12345678], 0x112233445566778", "mov qword [eax+r9d*8+0x12345678], 0x1122334455667788",
+          "test qword [r12d+r13d*8+0x12345678], 0x112233445566778", "add qword [r8d+r9d*2-0x12345678], 0x100000000",
+          "imul r9, [r12d+r13d*8+0x12345678], 0x112233445566778", "mov word [r12d+r13d*8+0x12345678], 0x1122334455667788",
+          "vperm2i128 ymm9, ymm10, [r12d+r13d*8+0x12345678], 0x1", "test r9, 0x8000000000000000", "push 0x8000000000000000"]
+
+
 def texts(L):
     mx = max(L)
     T = {
         "t1": [1], "t10": [10], "tmax": [mx], "prog3": [3, 5, 7], "nop25": [1] * 25, "bad": [None], "goodbad": [1, None],
     }
+    # the longest output the library produces for ANY text it accepts, not only for well-formed instructions: long memory
+    # operands with immediates the form cannot represent come out as over-long byte sequences, and the 20-byte reserve has
+    # to cover those too
+    res = hexec.run([hexec.single(t, n=256) for t in STRESS])
+    best = None
+    for t, o in zip(STRESS, res):
+        if hexec.is_crash(o):
+            continue
+        a = hexec.Asm(o[-1])
+        if a.ret == 0 and a.off > 0 and (best is None or a.off > best[1]):
+            best = (t, a.off)
+    if best:
+        T["tgarb"] = [best[1]]
     src = {}
+    if best:
+        src["tgarb"] = best[0] + "\n"
     for k, ls in T.items():
+        if k == "tgarb":
+            continue
         if k == "nop25":
             src[k] = "nop\n" * 25
         else:
@@ -28,7 +51,7 @@ def menu(n, tier):
             ops.append(("o", k))
     for c in (0, 4, 16):
         ops.append(("k", c))
-    for t in ("t1", "t10", "tmax", "prog3", "nop25", "bad", "goodbad"):
+    for t in ("t1", "t10", "tmax", "tgarb", "prog3", "nop25", "bad", "goodbad"):
         ops.append(("A", t))
     for t in ("t1", "prog3", "goodbad"):
         ops.append(("N", t, 4))
